@@ -253,12 +253,41 @@ def run(prog, R):
             du = U.du_of(b)
             for ci, (cb_, ct) in enumerate(cons):
                 amount_roots = roots_of(b, ct.args[1], du)
-                after = b.cfg.reach_from(cb_, include_start=False) | {cb_}
+                # the offsets may be re-based before or after the buffer is moved (same activation of the function)
+                after = set(x for x in b.cfg.reachable if cb_ in b.cfg.reach_from(x, include_start=True)) | b.cfg.reach_from(cb_, include_start=False) | {cb_}
                 written = {}
+                def self_path(pl):
+                    """field path below self of a written place, also through `let bp = &mut self.buf_pos; bp.seq -= ..`"""
+                    names = tuple(p['name'] for p in pl.proj if p['k'] == 'field')
+                    if pl.local == 1:
+                        return names
+                    if pl.proj and pl.proj[0]['k'] == 'deref':
+                        rs_ = roots_of(b, Place({'l': pl.local, 'p': []}), du)
+                        if rs_ and all(r[0] == 'arg' and r[1] == 1 for r in rs_):
+                            pre = set(tuple(q[1] for q in r[-1] if q[1] != '[]') for r in rs_)
+                            if len(pre) == 1:
+                                return pre.pop() + names
+                    return None
+                unknown_touch = set()
+                for x in after:
+                    t_ = b.blocks[x].term
+                    if t_.k == 'call' and t_.callee is not None and not t_.callee.is_('std::io::BufRead::consume'):
+                        # an offset field handed to a call by &mut (mem::replace, iter_mut().for_each(..), a helper): not modelled here
+                        for a_ in t_.args:
+                            if a_.is_const:
+                                continue
+                            ty_ = b.local_tys[a_.place.local] if a_.place.is_local() else ''
+                            if ty_.startswith('&mut') or 'IterMut' in ty_:
+                                for r in roots_of(b, a_, du, through_calls=lambda c: 0 if c and (c.path in IDENTITY_CALLS or c.name in ('iter_mut', 'into_iter')) else None):
+                                    if r[0] == 'arg' and r[1] == 1:
+                                        pth = tuple(q[1] for q in r[-1] if q[1] not in ('[]',))
+                                        for o in OFFSETS[fmt]:
+                                            if pth[:len(o)] == o:
+                                                unknown_touch.add(o)
                 for x in after:
                     for s in b.blocks[x].stmts:
-                        if s.k == 'assign' and s.place.local == 1:
-                            names = tuple(p['name'] for p in s.place.proj if p['k'] == 'field')
+                        if s.k == 'assign':
+                            names = self_path(s.place)
                             if names in OFFSETS[fmt]:
                                 written[names] = classify_shift(b, s, ct, du)
                         # *s -= consumed  for s in &mut seq_pos
@@ -267,9 +296,13 @@ def run(prog, R):
                             for r in src:
                                 if r[0] == 'arg' and tuple(q[1] for q in r[-1] if q[1] not in ('[]', '0'))[:2] == ('buf_pos', 'seq_pos'):
                                     written[('buf_pos', 'seq_pos')] = same_amount(b, s.rv.ops[1], ct, du)
-                missing = [o for o in OFFSETS[fmt] if o not in written]
+                missing = [o for o in OFFSETS[fmt] if o not in written and o not in unknown_touch]
+                unjudged = [o for o in OFFSETS[fmt] if o not in written and o in unknown_touch]
                 wrong = [o for o, v in written.items() if v is False]
-                if not written:
+                if not written and unknown_touch:
+                    R.undecided('UNIT-3', b, 'consume#%d:all-offsets-shifted' % (ci + 1), site(b, ct.line),
+                                'the stored offsets %s are handed to calls by &mut (mem::replace, for_each, a helper): how they are re-based is not visible to this rule' % sorted('.'.join(o) for o in unknown_touch))
+                elif not written:
                     # keeps no offsets: the amount must reach the file coordinate
                     flows = False
                     for x in after:
@@ -283,7 +316,9 @@ def run(prog, R):
                           'the function stores no buffer offsets; the consumed amount %s added to Position.byte' % ('is' if flows else 'is NOT'))
                 else:
                     R.add('UNIT-3', b, 'consume#%d:all-offsets-shifted' % (ci + 1), not missing and not wrong, site(b, ct.line),
-                          'offsets rewritten after consume: %s; missing: %s; not shifted by the consumed amount: %s' % (sorted('.'.join(o) for o in written), ['.'.join(o) for o in missing], ['.'.join(o) for o in wrong]))
+                          'offsets rewritten around consume: %s; missing: %s; not shifted by the consumed amount: %s%s' % (sorted('.'.join(o) for o in written), ['.'.join(o) for o in missing], ['.'.join(o) for o in wrong],
+                              ('; handed to a call by &mut and not judged: %s' % ['.'.join(o) for o in unjudged]) if unjudged else ''),
+                          undecided=(not missing and not wrong and bool(unjudged)))
     R.floor('UNIT-3', 3)
     # ---------------- UNIT-3b: FASTQ — valid offsets are shifted, the others recomputed (exhaustive over RecordPos)
     R.rule('UNIT-3b', 'FASTQ: for every part p in which a record search can be interrupted, the compaction shifts exactly the line offsets that are valid at p (those the search assigned before stopping at p) and the resumed search recomputes all the others')
